@@ -7,7 +7,7 @@ SCOPES = {
     "E1": dict(MaxT=2, MaxU=1, MaxI=1, shards=8),      # 16 681 configurations
     "E1b": dict(MaxT=2, MaxU=2, MaxI=1, shards=12),    # adds two-uses chains (cycles via uses)
     "E2": dict(MaxT=3, MaxU=2, MaxI=1, shards=16),     # 1 302 000 configurations
-    "E2s": dict(MaxT=3, MaxU=2, MaxI=1, shards=64, run_shards=8),   # a deterministic eighth of E2 (~160 000 configurations)
+    "E2s": dict(MaxT=3, MaxU=2, MaxI=1, shards=64, run_shards=5),   # a deterministic 5/64 of E2 (~100 000 configurations)
     "N3": dict(MaxT=3, MaxU=1, MaxI=1, shards=2, chain=True),   # three nesting levels a, a/a, a/a/a: 1 600 configurations
     "N3b": dict(MaxT=3, MaxU=2, MaxI=1, shards=8, chain=True),  # ... with two uses entries: 31 240 configurations
 }
@@ -412,7 +412,9 @@ def run(pid, tier):
                         if why.startswith(pid + ":"):
                             run_fails.append((rec, why))
         # ---- impl -> spec: TLC judges every record
-        fails, st_, tr_ = vlib.judge("JudgeA", records, shards=min(vlib.NCPU, max(1, len(records) // 1500)))
+        # (the thorough tier judges several hundred thousand records: hours of TLC time in total, spread over the shards)
+        fails, st_, tr_ = vlib.judge("JudgeA", records, shards=min(vlib.NCPU, max(1, len(records) // 1500)),
+                                     timeout=900 if tier == "quick" else 10800)
         chk.cov["states"] += st_
         chk.cov["transitions"] += tr_
         chk.cov["traces_validated_against_impl"] = len(records)
